@@ -10,6 +10,8 @@ definition is then instantiated at
 * `Expr`   (`GraphSlam/Real/Expr.lean`)       – a deep embedding used as a proof device
                                                 (verified symbolic differentiation).
 
+`ScalarT` (adds `atan2`) is instantiated at `Float` (below) and at `ℝ` (`GraphSlam/Real/Atan2.lean`) only.
+
 This file imports nothing (no Mathlib).
 -/
 
@@ -49,6 +51,18 @@ instance : ScalarF Float where
   div a b := a / b
   gt a b := a > b
   ge a b := a >= b
+
+/-- The two-argument arctangent, needed only by `PoseSE2.from_matrix` (matrix → pose).  A separate class on top of
+    `ScalarF`, so that instances which have no use for it (`Expr`, the rounding instance `Fl rnd`, …) are untouched. -/
+class ScalarT (E : Type) extends ScalarF E where
+  /-- `math.atan2(y, x)` / `np.arctan2(y, x)`: ordinate first, abscissa second -/
+  atan2 : E → E → E
+
+/-- `Float` instance of the extended interface: the `ScalarF Float` instance above plus the C library's `atan2`
+    (the function CPython's `math.atan2` calls). -/
+instance : ScalarT Float where
+  toScalarF := inferInstance
+  atan2 y x := Float.atan2 y x
 
 section Linear
 variable {E : Type} [Scalar E]
